@@ -8,10 +8,13 @@
    both tied to the Rust code on every run (tiers T2, T3).
 
    Scope of the theorem (stage 1 of the compiler-correctness proof):
-   - [nodeleg]: the compiled program contains no Delegate instruction, i.e. every easy piece next
-     to a hard construct is a run of literals (in hard context everything else is compiled to VM
-     instructions anyway).  Programs with Delegate instructions are covered by the differential
-     tiers, not by this theorem.
+   - [okdeleg]: every Delegate instruction of the compiled program hands over a DETERMINISTIC,
+     capture-free block: a concatenation of character classes, case-insensitive literals, any-char,
+     assertions and literals (Proofs/Det.v) — e.g. a class next to a hard construct, the \Z helper,
+     the class inside a look-around.  (Runs of plain literals become one Lit instruction, and in a
+     hard context everything except classes and case-insensitive literals is compiled to VM
+     instructions anyway.)  Programs that delegate a block with alternation, repetition or capture
+     groups are covered by the differential tiers, not by this theorem.
    - [oke]: literals are single characters and class nodes have size 1 (parser invariants), every
      backreference names a group opened earlier (what the analysis checks), counted repeats have
      lo <= hi (what the parser checks), and no conditional sits inside the body of an atomic
@@ -20,7 +23,7 @@
    Look-behinds over alternations of different lengths are inside the scope: the compiler turns
    them into an alternation (positive) / a sequence (negative) of look-behinds, and the reference
    semantics reads them the same way (Oniguruma's reading). *)
-From FR Require Import Base State Utf8 Utf8Facts Chars Ast Analyze Sem SemSound Vm Compile
+From FR Require Import Base State Utf8 Utf8Facts Chars Ast Analyze Sem SemSound SemK Det Vm Compile
                        Machine CompileCorrect RunCorrect EndToEnd.
 From Coq Require Import NArith Lia.
 
@@ -35,7 +38,7 @@ Theorem C01_vm_follows_reference :
   bnd cs (c_pos cx) ->
   forall (bs : N -> bool) (e : expr) (p : prog),
   compile bs (wrap e) = inr p ->
-  nodeleg (p_body p) ->
+  okdeleg (p_body p) ->
   oke true 0 (wrap e) ->
   forall fuel : nat, length (concat cs) < fuel ->
   forall (max_st : nat) (lim : option N) (fuelv : nat),
@@ -46,6 +49,11 @@ Theorem C01_vm_follows_reference :
   | _ => True
   end.
 Proof. exact vm_agrees_with_reference. Qed.
+
+(* the reference the checks evaluate (the first-success continuation-passing [search], which the
+   extracted model runs against the real crate) is the reference of the theorem *)
+Theorem C01_reference_forms_agree : forall cx e fuel, search cx e fuel = search_list cx e fuel.
+Proof. exact search_eq. Qed.
 
 (* the heart of it: the code emitted for ANY sub-expression, started anywhere in any program that
    contains it, arrives at its exit exactly as often, in the same order and with the same offsets
@@ -64,7 +72,7 @@ Definition ex_p : prog :=
 
 Example ex_hyps :
   valid_chars [[97]; [98]; [45]] /\ compile (fun _ => false) (wrap ex_e) = inr ex_p /\
-  nodeleg (p_body ex_p) /\ oke true 0 (wrap ex_e).
+  okdeleg (p_body ex_p) /\ oke true 0 (wrap ex_e).
 Proof.
   split; [repeat constructor|]. split; [reflexivity|]. split; [reflexivity|].
   unfold oke. cbn. repeat split; auto; try lia; try reflexivity.
@@ -74,5 +82,23 @@ Example ex_runs :
   search_list ex_cx ex_e 10 = Some [V 0; V 2].
 Proof. split; vm_compute; reflexivity. Qed.
 
+(* non-vacuity with a Delegate instruction: (?<=[ab])-\b over "a-b" (the class is delegated) *)
+Definition ex3_e : expr :=
+  Concat [LookAround (Delegate [] 1 false (DClass [97; 98])) LookBehind; Literal [45] false; Assertion WordBoundary].
+Definition ex3_p : prog :=
+  match compile (fun _ => false) (wrap ex3_e) with inr p => p | inl _ => {| p_body := []; p_nsaves := 0 |} end.
+Example ex3_hyps :
+  compile (fun _ => false) (wrap ex3_e) = inr ex3_p /\ okdeleg (p_body ex3_p) /\ oke true 0 (wrap ex3_e) /\
+  existsb (fun i => match i with IDelegate _ _ _ => true | _ => false end) (p_body ex3_p) = true.
+Proof.
+  split; [reflexivity|]. split; [reflexivity|]. split; [|reflexivity].
+  unfold oke. cbn. repeat split; auto; try lia; try reflexivity; try discriminate.
+Qed.
+Example ex3_runs :
+  exists sv, fst (vm_run {| c_text := [97; 45; 98]; c_pos := 0; c_skipped := false |} ex3_p 100 (Some 1000%N) 1000) = RMatch sv /\
+             firstn 2 sv = [V 1; V 2].
+Proof. eexists; split; vm_compute; reflexivity. Qed.
+
 Print Assumptions C01_vm_follows_reference.
 Print Assumptions seg_all.
+Print Assumptions C01_reference_forms_agree.
